@@ -75,6 +75,14 @@ class Taint:
             for x in ast.walk(t):
               if isinstance(x, ast.Name):
                 self.tainted.add(x.id)
+      # text put into a collection taints the collection
+      if isinstance(n, ast.Call) and isinstance(n.func, ast.Attribute) and \
+          n.func.attr in ('append', 'extend', 'insert', 'add', 'appendleft') and \
+          isinstance(n.func.value, ast.Name) and any(self.is_t(a) for a in n.args):
+        self.tainted.add(n.func.value.id)
+      if isinstance(n, ast.AugAssign) and isinstance(n.target, ast.Name) and \
+          self.is_t(n.value):
+        self.tainted.add(n.target.id)
       if isinstance(n, (ast.For, ast.comprehension)):
         if self.is_t(n.iter):
           for x in ast.walk(n.target):
@@ -304,6 +312,13 @@ def check(model, rep, tier):
           len(n.targets[0].elts) == 1 and first and first in core.norm(n.targets[0]):
         if g.node_of(n) is not None and g.node_of(n) in g.dominators().get(ri, ()):
           unpack = core.norm(n.value)
+      # `x, lo, hi = L[0]`
+      if isinstance(n, ast.Assign) and isinstance(n.targets[0], ast.Tuple) and first and \
+          first in [core.norm(e_) for e_ in n.targets[0].elts] and isinstance(
+              n.value, ast.Subscript) and isinstance(n.value.slice, ast.Constant) and \
+          n.value.slice.value in (0, -1) and isinstance(n.value.value, ast.Name):
+        if g.node_of(n) is not None and g.node_of(n) in g.dominators().get(ri, ()):
+          unpack = core.norm(n.value.value)
     if unpack is None and isinstance(v, ast.Call):
       subs = {core.norm(x.value) for a_ in v.args for x in ast.walk(a_)
               if isinstance(x, ast.Subscript) and isinstance(x.slice, ast.Constant)
@@ -486,13 +501,31 @@ def check(model, rep, tier):
   ok = False
   for r in ast.walk(pe.node):
     if isinstance(r, ast.Return) and isinstance(r.value, ast.Tuple):
-      c = r.value.elts[0]
-      if isinstance(c, ast.Call) and core.dotted(c.func) == 'parse' and any(
+      c = tpl.expand(pe, r.value.elts[0], r, depth=1)
+      if isinstance(c, ast.Call) and core.dotted(c.func) == 'parse' and (any(
           k.arg == 'preamble_len' and core.norm(k.value) == 'len(%s)' % fparam
-          for k in c.keywords):
-        # the text parsed is the joined (future statements + dedented source)
-        x = tpl.xnorm(pe, c.args[0], c)
-        ok = x.startswith("'\\n'.join(") and 'dedent_block(' in x and fparam in x
+          for k in c.keywords) or (len(c.args) == 2 and core.norm(c.args[1]) ==
+                                   'len(%s)' % fparam)):
+        # the text parsed is the joined (future statements + dedented source):
+        # what the joined collection is made of, directly or through a local
+        # list that is filled step by step
+        x = tpl.xnorm(pe, c.args[0], r)
+        parts = [x]
+        jx = tpl.expand(pe, c.args[0], r, depth=1)
+        if isinstance(jx, ast.Call) and isinstance(jx.func, ast.Attribute) and \
+            jx.func.attr == 'join' and len(jx.args) == 1:
+          for nm in [n_ for n_ in ast.walk(c.args[0]) if isinstance(n_, ast.Name)] + [
+              n_ for n_ in ast.walk(jx.args[0]) if isinstance(n_, ast.Name)]:
+            for m_ in ast.walk(pe.node):
+              if isinstance(m_, ast.Call) and isinstance(m_.func, ast.Attribute) and \
+                  m_.func.attr in ('append', 'extend') and core.norm(m_.func.value) == \
+                  nm.id and m_.args:
+                parts.append(tpl.xnorm(pe, m_.args[0], m_))
+              if isinstance(m_, ast.Assign) and len(m_.targets) == 1 and core.norm(
+                  m_.targets[0]) == nm.id:
+                parts.append(tpl.xnorm(pe, m_.value, m_))
+        ok = x.startswith("'\\n'.join(") and any('dedent_block(' in p_ for p_ in parts) \
+            and any(fparam in p_ for p_ in parts)
   rep.check(ok, 'SRC-GETTER', '%s:preamble' % pe.site,
             'the future-import preamble must be skipped by exactly its length',
             line=pe.node.lineno)
